@@ -100,7 +100,7 @@ def _item(i, has_name, name, n_tags):
 for _n, _r in [("get_item", Resp(200, {"id": 1, "displayName": "n", "tags": ["t"]})), ("list_items", Resp(200, [{"id": 1}])), ("get_alias", Resp(200, [{"id": 1}])),
                ("upsert_item", Resp(201, {"code": "c"})), ("upsert_reversed", Resp(201, {"code": "c"})), ("get_flavours", Resp(200, {"code": "c"}, ctype="application/hal+json")), ("get_vendor_item", Resp(200, {"id": 1})), ("get_with_default", Resp(200, {"id": 1})), ("get_shape", Resp(200, {"r": 1})),
                ("get_shape", Resp(200, {"side": 1})), ("get_label_sets", Resp(200, [{"a": "b"}])), ("get_labels", Resp(200, {"a": "b"})), ("get_profile", Resp(200, {"nick": "n"})),
-               ("get_maybe_items", Resp(200, [{"id": 1}])), ("get_color", Resp(200, "red")), ("get_colors", Resp(200, ["red"])), ("get_colors_inline", Resp(200, ["red"])), ("get_stamp", Resp(200, "2024-03-09T14:30:00")),
+               ("get_maybe_items", Resp(200, [{"id": 1}])), ("get_color", Resp(200, "red")), ("get_tone", Resp(200, "red")), ("get_colors", Resp(200, ["red"])), ("get_colors_inline", Resp(200, ["red"])), ("get_stamp", Resp(200, "2024-03-09T14:30:00")),
                ("get_stamps", Resp(200, ["2024-03-09T14:30:00"])), ("get_when", Resp(200, "2024-03-09T14:30:00")), ("get_day", Resp(200, "2024-02-29")), ("get_uid", Resp(200, "00000000-0000-0000-0000-000000000000")),
                ("get_uids", Resp(200, ["00000000-0000-0000-0000-000000000000"]))]:
     try:
@@ -212,7 +212,7 @@ COLORS = ["red", "dark-blue"]
 
 def ob_formatted_bodies(which: int, a: int, b: int, n: int) -> bool:
     """
-    pre: 0 <= which <= 8 and 0 <= a <= 5 and 0 <= b <= 5 and 0 <= n <= 2
+    pre: 0 <= which <= 9 and 0 <= a <= 5 and 0 <= b <= 5 and 0 <= n <= 2
     post: _
     """
     # a body that is a formatted string or an enum value comes back as the annotated Python type, not as the raw text
@@ -240,6 +240,12 @@ def ob_formatted_bodies(which: int, a: int, b: int, n: int) -> bool:
     if which == 6:
         v, _ = call("get_color", Resp(200, COLORS[a % 2]))
         return isinstance(v, Color) and v.value == COLORS[a % 2]
+    if which == 9:
+        # the enum reference wrapped in allOf to make it nullable (OpenAPI 3.0 idiom)
+        if a == 5:
+            return call("get_tone", Resp(200, None))[0] is None
+        v, _ = call("get_tone", Resp(200, COLORS[a % 2]))
+        return isinstance(v, Color) and v.value == COLORS[a % 2]
     docs = [COLORS[(a + k * b) % 2] for k in range(n)]
     v, _ = call(["get_colors", "get_colors_inline"][which - 7], Resp(200, list(docs)))
     return isinstance(v, list) and len(v) == n and all(isinstance(x, Color) and x.value == d for x, d in zip(v, docs))
@@ -247,7 +253,7 @@ def ob_formatted_bodies(which: int, a: int, b: int, n: int) -> bool:
 
 def tw_formatted_bodies(which: int, a: int, b: int, n: int) -> bool:
     """
-    pre: 0 <= which <= 8 and 0 <= a <= 5 and 0 <= b <= 5 and 0 <= n <= 2
+    pre: 0 <= which <= 9 and 0 <= a <= 5 and 0 <= b <= 5 and 0 <= n <= 2
     post: _
     """
     call("get_color", Resp(200, COLORS[a % 2]))
